@@ -30,6 +30,9 @@ type Eval struct {
 	// postcondition is assumed, the entry frontier of the function under verification otherwise
 	freshBase *Term
 	qn     int
+	// definitional axioms of fresh symbols introduced by the expression (shiftseq): assumed by the
+	// ghost assignment that evaluates it (expressions are otherwise evaluated without side effects)
+	defs []Term
 }
 
 func (x *Exec) newEval(fr *Frame, st *State, run *loopRun) *Eval {
@@ -728,6 +731,15 @@ func (ev *Eval) callExpr(n *ast.CallExpr) Value {
 	case "constseq":
 		v := ev.term(n.Args[0])
 		return &Prim{T: ConstArr(v.Sort, v)}
+	case "shiftseq":
+		// shiftseq(a, k): the sequence b with b[i] == a[i+k] (only in ghost assignments)
+		a := ev.term(n.Args[0])
+		k := ev.term(n.Args[1])
+		ev.x.fresh++
+		b := Term{fmt.Sprintf("shiftseq!%d", ev.x.fresh), a.Sort}
+		ev.st.push(&LogNode{Kind: KDecl, Name: b.S, Sort: a.Sort})
+		ev.defs = append(ev.defs, Term{fmt.Sprintf("(forall ((i!s Int)) (! (= (select %s i!s) (select %s (+ i!s %s))) :pattern ((select %s i!s))))", b.S, a.S, k.S, b.S), SBool})
+		return &Prim{T: b}
 	case "nan":
 		return &Prim{T: F64Bits(0x7FF8000000000001)}
 	case "inf":
